@@ -1,6 +1,7 @@
 package types
 
 import (
+	"encoding/json"
 	"errors"
 	"fmt"
 	"math/big"
@@ -119,7 +120,11 @@ func (u *Uint) UnmarshalAmino(text string) error {
 	if u.i == nil { // Necessary since default Uint initialization has i.i as nil
 		u.i = new(big.Int)
 	}
-	return unmarshalAmino(u.i, text)
+	// the range of a Uint is [0, 2^256-1], not the signed 255-bit range of Int
+	if err := u.i.UnmarshalText([]byte(text)); err != nil {
+		return err
+	}
+	return UintOverflow(u.i)
 }
 
 // MarshalJSON defines custom encoding scheme
@@ -135,7 +140,15 @@ func (u *Uint) UnmarshalJSON(bz []byte) error {
 	if u.i == nil { // Necessary since default Uint initialization has i.i as nil
 		u.i = new(big.Int)
 	}
-	return unmarshalJSON(u.i, bz)
+	// the range of a Uint is [0, 2^256-1], not the signed 255-bit range of Int
+	var text string
+	if err := json.Unmarshal(bz, &text); err != nil {
+		return err
+	}
+	if err := u.i.UnmarshalText([]byte(text)); err != nil {
+		return err
+	}
+	return UintOverflow(u.i)
 }
 
 //__________________________________________________________________________
